@@ -5,6 +5,6 @@ D=$(mktemp -d /tmp/vjob.XXXX)
 echo "$1" > $D/jobs.jsonl
 mkdir -p $D/emptybin /tmp/vsimroot
 R=/tmp/vsimroot
-unshare -m sh -c "mount --bind $D $R && cd $R && env -i HOME=$R PATH=$R/emptybin TMPDIR=$R GODEBUG=asynctimerchan=0 GOMAXPROCS=4 GOTRACEBACK=all VERIF_JOBS=$R/jobs.jsonl VERIF_OUT=$R/out.jsonl $BIN -test.run '^TestVerifWorker\$' -test.timeout ${T:-120s} > $R/log 2>&1"
+unshare -m sh -c "mount --bind $D $R && cd $R && env -i HOME=$R PATH=$R/emptybin TMPDIR=$R GODEBUG=asynctimerchan=0 GOMAXPROCS=1 GOTRACEBACK=all VERIF_JOBS=$R/jobs.jsonl VERIF_OUT=$R/out.jsonl $BIN -test.run '^TestVerifWorker\$' -test.timeout ${T:-120s} > $R/log 2>&1"
 cat $D/out.jsonl 2>/dev/null || tail -50 $D/log
 rm -rf $D
